@@ -293,6 +293,16 @@ func init() {
 						return fmt.Sprintf("%s tokenizer, input %q repeated %d times, %d option sets", kind, stringByIndex(ca, 1+i%npat), counts[i/npat], len(all))
 					}})
 			}
+			// change-directed: literals that are new in the working tree as extra letters
+			if na := newAtoms(5); len(na) > 0 {
+				atoms := append(append([]string{}, na...), "a", "'")
+				for _, kind := range tokKinds {
+					kind := kind
+					sp = append(sp, fw.Space{Name: "new-literals-" + kind, N: countStrings(len(atoms), 5),
+						Run:  func(c *fw.Ctx, i int64) { c15Run(c, kind, strings.Join(lexemesByIndex(atoms, i), ""), all) },
+						Repr: func(i int64) string { return fmt.Sprintf("%s tokenizer, input %q (letters incl. literals new in the working tree: %q), %d option sets", kind, strings.Join(lexemesByIndex(atoms, i), ""), na, len(all)) }})
+				}
+			}
 			return sp
 		},
 		Bounds: func(tier string) string {
